@@ -77,7 +77,7 @@ def run(ctx, idx):
     ctx.floor("C04.a", "return sites of fuzzy producers", n_ret, 14)
     ctx.rule("C04.e", "The clamp is final: no command writes in place through one of its inputs, so a fuzzy result cannot be rescaled or overwritten after its producer clamped it.")
     for key, (d, r) in sorted(R.results(idx).items()):
-        if d.is_data() or any(getattr(p, "is_fuzzy", None) for p in d.inputs.values()):
+        if d.is_data() or any(getattr(p, "is_fuzzy", None) for p in d.inputs.values()) or d.ref_inputs():  # every consumer of results, writers and printers included
             R.leaves_inputs_alone(ctx, "C04.e", d, r, "when that input is a fuzzy result, the values its producer clamped to [-1, +1] are replaced after the fact and every later reader sees values outside the range")
     missing = FUZZY_PRODUCERS - found
     extra = found - FUZZY_PRODUCERS
